@@ -1,8 +1,569 @@
-//! C04 — not built yet.
+//! C04 — ULA memory and I/O contention delays match the 48K/128K contention model.
+//! Three layers, all against `trace <t> <ops>` of the Lean machine model (code-shaped) and spec
+//! (the property's delay table and I/O patterns):
+//!  (1) single memory-side bus cycles through the real wait_mreq (verif_read_mem),
+//!  (2) single port cycles through the real read_io/write_io,
+//!  (3) whole instructions executed by the real Z80 inside the real Emulator (one step via a
+//!      break-always DebugInterface); the bus-cycle trace of the same instruction is taken from the
+//!      real Z80 running on a recording bus with identical registers and memory.
+use crate::host::*;
 use crate::util::*;
+use rustzx_z80::{Opcode, Prefix, Z80Bus, Z80};
+use std::collections::HashMap;
+use std::time::Duration;
 
-pub fn run(_o: &Opts) -> Report {
+fn frame_len(m128: bool) -> usize {
+    if m128 {
+        70908
+    } else {
+        69888
+    }
+}
+
+#[derive(Clone, Debug, PartialEq)]
+enum BusOp {
+    Mem(u16, usize),
+    Plain(usize),
+    Io(u16),
+}
+
+fn ops_text(ops: &[BusOp]) -> String {
+    ops.iter()
+        .map(|o| match o {
+            BusOp::Mem(a, k) => format!("m{:04x}:{:x}", a, k),
+            BusOp::Plain(k) => format!("p{:x}", k),
+            BusOp::Io(p) => format!("i{:04x}", p),
+        })
+        .collect::<Vec<_>>()
+        .join(" ")
+}
+
+/// Recording bus for the real Z80: zero-filled sparse memory, logs the timing-relevant calls.
+/// The provided methods (read/write/wait_loop/...) are NOT overridden.
+#[derive(Default)]
+struct RecBus {
+    mem: HashMap<u16, u8>,
+    ops: Vec<BusOp>,
+    writes: Vec<u16>,
+}
+
+impl Z80Bus for RecBus {
+    fn read_internal(&mut self, addr: u16) -> u8 {
+        *self.mem.get(&addr).unwrap_or(&0)
+    }
+    fn write_internal(&mut self, addr: u16, data: u8) {
+        self.writes.push(addr);
+        self.mem.insert(addr, data);
+    }
+    fn wait_mreq(&mut self, addr: u16, clk: usize) {
+        self.ops.push(BusOp::Mem(addr, clk));
+    }
+    fn wait_no_mreq(&mut self, addr: u16, clk: usize) {
+        self.ops.push(BusOp::Mem(addr, clk));
+    }
+    fn wait_internal(&mut self, clk: usize) {
+        self.ops.push(BusOp::Plain(clk));
+    }
+    fn read_io(&mut self, port: u16) -> u8 {
+        self.ops.push(BusOp::Io(port));
+        0xFF
+    }
+    fn write_io(&mut self, port: u16, _data: u8) {
+        self.ops.push(BusOp::Io(port));
+    }
+    fn read_interrupt(&mut self) -> u8 {
+        0xFF
+    }
+    fn reti(&mut self) {}
+    fn halt(&mut self, _: bool) {}
+    fn int_active(&self) -> bool {
+        false
+    }
+    fn nmi_active(&self) -> bool {
+        false
+    }
+    fn pc_callback(&mut self, _addr: u16) {}
+    fn process_unknown_opcode(&mut self, _p: Prefix, _o: Opcode) {}
+}
+
+#[derive(Clone, Debug)]
+struct Regs16 {
+    pc: u16,
+    sp: u16,
+    af: u16,
+    bc: u16,
+    de: u16,
+    hl: u16,
+    ix: u16,
+    iy: u16,
+    i: u8,
+}
+
+fn set_regs(cpu: &mut Z80, r: &Regs16) {
+    cpu.regs.set_pc(r.pc);
+    cpu.regs.set_sp(r.sp);
+    cpu.regs.set_af(r.af);
+    cpu.regs.set_bc(r.bc);
+    cpu.regs.set_de(r.de);
+    cpu.regs.set_hl(r.hl);
+    cpu.regs.set_ix(r.ix);
+    cpu.regs.set_iy(r.iy);
+    cpu.regs.set_i(r.i);
+    cpu.regs.set_r(0);
+    cpu.regs.set_iff1(false);
+    cpu.regs.set_iff2(false);
+    cpu.halted = false;
+    cpu.skip_interrupt = false;
+    cpu.regs.set_mem_ptr(0);
+}
+
+#[derive(Clone, Debug)]
+enum Action {
+    /// one memory-side cycle: verif_read_mem(addr, clk)
+    Mreq(u16, usize),
+    /// one port cycle: read or write
+    Port(u16, bool),
+    /// one instruction: code bytes at regs.pc
+    Instr(Vec<u8>, Regs16),
+}
+
+#[derive(Clone, Debug)]
+struct Case {
+    m128: bool,
+    latch: u8,
+    t: usize,
+    act: Action,
+}
+
+impl Case {
+    fn text(&self) -> String {
+        let head = format!("{} {:02x} {}", if self.m128 { 128 } else { 48 }, self.latch, self.t);
+        match &self.act {
+            Action::Mreq(a, k) => format!("{} mreq {:04x} {}", head, a, k),
+            Action::Port(p, w) => format!("{} port {:04x} {}", head, p, *w as u8),
+            Action::Instr(code, r) => format!(
+                "{} instr {} {:04x} {:04x} {:04x} {:04x} {:04x} {:04x} {:04x} {:04x} {:02x}",
+                head, hex(code), r.pc, r.sp, r.af, r.bc, r.de, r.hl, r.ix, r.iy, r.i
+            ),
+        }
+    }
+    fn parse(s: &str) -> Option<Case> {
+        let t: Vec<&str> = s.split_whitespace().collect();
+        let h = |x: &str| u16::from_str_radix(x, 16).ok();
+        let m128 = *t.first()? == "128";
+        let latch = h(t.get(1)?)? as u8;
+        let tt: usize = t.get(2)?.parse().ok()?;
+        let act = match *t.get(3)? {
+            "mreq" => Action::Mreq(h(t.get(4)?)?, t.get(5)?.parse().ok()?),
+            "port" => Action::Port(h(t.get(4)?)?, *t.get(5)? == "1"),
+            "instr" => Action::Instr(
+                unhex(t.get(4)?),
+                Regs16 {
+                    pc: h(t.get(5)?)?, sp: h(t.get(6)?)?, af: h(t.get(7)?)?, bc: h(t.get(8)?)?, de: h(t.get(9)?)?,
+                    hl: h(t.get(10)?)?, ix: h(t.get(11)?)?, iy: h(t.get(12)?)?, i: h(t.get(13)?)? as u8,
+                },
+            ),
+            _ => return None,
+        };
+        Some(Case { m128, latch, t: tt, act })
+    }
+}
+
+struct Rig {
+    e: Emu,
+    m128: bool,
+    latch: u8,
+    dirty: Vec<u16>,
+    poisoned: bool,
+}
+
+impl Rig {
+    fn new(m128: bool) -> Rig {
+        let mut e = emu(&Cfg::new(m128));
+        let mut d = Dbg::default();
+        d.break_all = true;
+        e.set_debug_interface(d);
+        Rig { e, m128, latch: 0, dirty: vec![], poisoned: false }
+    }
+
+    /// moves the clock to `t` without ever going backwards inside a frame
+    fn goto(&mut self, t: usize) {
+        let cur = self.e.verif_frame_clocks();
+        if t < cur {
+            self.e.verif_wait(frame_len(self.m128) - cur);
+        }
+        self.e.verif_set_frame_clocks(t);
+    }
+
+    fn set_latch(&mut self, latch: u8) {
+        if self.m128 && self.latch != latch {
+            self.e.verif_write_io(0x7FFD, latch & 0x1F);
+            self.latch = latch & 0x1F;
+        }
+    }
+
+    /// runs the case on the real machine, returns (elapsed T-states, bus ops for the model)
+    fn run(&mut self, c: &Case) -> (usize, Vec<BusOp>) {
+        let l = frame_len(self.m128);
+        self.set_latch(c.latch);
+        match &c.act {
+            Action::Mreq(a, k) => {
+                self.goto(c.t);
+                let f0 = self.e.verif_frames_count();
+                let _ = self.e.verif_read_mem(*a, *k);
+                let el = (self.e.verif_frames_count() - f0) * l + self.e.verif_frame_clocks() - c.t;
+                (el, vec![BusOp::Mem(*a, *k)])
+            }
+            Action::Port(p, w) => {
+                self.goto(c.t);
+                let f0 = self.e.verif_frames_count();
+                if *w {
+                    // data 0 to a port that is neither ULA-border-relevant nor paging is harmless; avoid the latch
+                    self.e.verif_write_io(*p, self.latch_safe_data(*p));
+                } else {
+                    let _ = self.e.verif_read_io(*p);
+                }
+                let el = (self.e.verif_frames_count() - f0) * l + self.e.verif_frame_clocks() - c.t;
+                (el, vec![BusOp::Io(*p)])
+            }
+            Action::Instr(code, r) => {
+                // clean what the previous instruction left behind, then place the code
+                for a in std::mem::take(&mut self.dirty) {
+                    self.e.verif_write_mem(a, 0, 0);
+                }
+                for (i, b) in code.iter().enumerate() {
+                    let a = r.pc.wrapping_add(i as u16);
+                    self.e.verif_write_mem(a, *b, 0);
+                    self.dirty.push(a);
+                }
+                // reference trace: the real Z80 on a recording bus with the same registers and memory
+                let mut bus = RecBus::default();
+                for (i, b) in code.iter().enumerate() {
+                    bus.mem.insert(r.pc.wrapping_add(i as u16), *b);
+                }
+                let mut z = Z80::default();
+                set_regs(&mut z, r);
+                z.emulate(&mut bus);
+                // a DD/FD/ED chain leaves a pending prefix: one more step completes the instruction
+                let mut steps = 1;
+                while z.skip_interrupt && steps < 4 {
+                    z.emulate(&mut bus);
+                    steps += 1;
+                }
+                self.dirty.extend(bus.writes.iter().copied());
+                set_regs(self.e.verif_cpu(), r);
+                self.goto(c.t);
+                let mut frames = 0;
+                for _ in 0..steps {
+                    let _ = self.e.emulate_frames(Duration::from_secs(100));
+                    frames += self.e.verif_frames_count();
+                }
+                let el = frames * l + self.e.verif_frame_clocks() - c.t;
+                // an OUT that reached the paging latch changes the map in mid-instruction: not comparable
+                let (now, enabled, _) = self.e.verif_paging();
+                if self.m128 && (now != self.latch || !enabled) {
+                    self.latch = now;
+                    self.poisoned = !enabled;
+                    return (usize::MAX, bus.ops);
+                }
+                (el, bus.ops)
+            }
+        }
+    }
+
+    fn latch_safe_data(&self, _p: u16) -> u8 {
+        self.latch
+    }
+}
+
+fn check_case(model: &mut Model, rig: &mut Rig, c: &Case, rep: &mut Report, batch: &mut Vec<(Case, usize, Vec<BusOp>)>) {
+    let _ = model;
+    let _ = rep;
+    if rig.poisoned {
+        *rig = Rig::new(rig.m128);
+    }
+    let (el, ops) = match catch(|| rig.run(c)) {
+        Ok(x) => x,
+        Err(msg) => {
+            // the code under test panicked on this bus cycle / instruction
+            rig.poisoned = true;
+            let what = match &c.act { Action::Instr(code, _) => format!("instr:{}", hex(&code[..1])), Action::Mreq(..) => "mreq".into(), Action::Port(..) => "port".into() };
+            rep.violation(Violation {
+                kind: Kind::SpecViolated,
+                key: format!("C04/{}/{}/panic", if c.m128 { "128k" } else { "48k" }, what),
+                what: format!("case {} panics inside rustzx: {}", c.text(), msg),
+                correspondence: "corr.C04.timing (Model.Machine waitMreq/ioCycle/contentionClocks vs controller.rs)".into(),
+                case: J::obj(vec![("text", J::s(c.text()))]),
+                implementation: format!("panic: {}", msg),
+                expected: "a delay of 0..6 T-states".into(),
+            });
+            return;
+        }
+    };
+    if el == usize::MAX {
+        rep.count("cases", "skipped: instruction wrote the paging latch");
+        return;
+    }
+    batch.push((c.clone(), el, ops));
+}
+
+fn flush(model: &mut Model, rep: &mut Report, batch: &mut Vec<(Case, usize, Vec<BusOp>)>) {
+    if batch.is_empty() {
+        return;
+    }
+    // the model keeps machine + latch state: group requests by (machine, latch)
+    let mut lines = vec![];
+    let mut idx = vec![];
+    let mut cur: Option<(bool, u8)> = None;
+    for (c, _, ops) in batch.iter() {
+        if cur != Some((c.m128, c.latch)) {
+            lines.push(format!("new {}", if c.m128 { 128 } else { 48 }));
+            if c.m128 {
+                lines.push(format!("out {:02x}", c.latch));
+            }
+            cur = Some((c.m128, c.latch));
+        }
+        idx.push(lines.len());
+        lines.push(format!("trace {:x} {}", c.t, ops_text(ops)));
+    }
+    let answers = model.ask_many(&lines);
+    for ((c, el, ops), i) in batch.iter().zip(idx.iter()) {
+        rep.eval();
+        let ans = &answers[*i];
+        let mut it = ans.split(' ');
+        let m = usize::from_str_radix(it.next().unwrap_or("0"), 16).unwrap_or(usize::MAX);
+        let s = usize::from_str_radix(it.next().unwrap_or("0"), 16).unwrap_or(usize::MAX);
+        let plain: usize = ops.iter().map(|o| match o { BusOp::Mem(_, k) => *k, BusOp::Plain(k) => *k, BusOp::Io(_) => 4 }).sum();
+        let kind_name = match &c.act {
+            Action::Mreq(..) => "mreq".to_string(),
+            Action::Port(p, w) => format!("port{}{}", if *w { "w" } else { "r" }, p & 1),
+            Action::Instr(code, _) => format!("instr:{}", hex(&code[..code.len().min(if matches!(code[0], 0xDD | 0xFD | 0xED | 0xCB) { 2 } else { 1 })])),
+        };
+        if *el > plain {
+            rep.class(format!("{} {} delay={} res={}", if c.m128 { 128 } else { 48 }, kind_name, el - plain, c.t % 8));
+            rep.count("delayed", "yes");
+        } else {
+            rep.count("delayed", "no");
+        }
+        if *el != s {
+            rep.violation(Violation {
+                kind: Kind::SpecViolated,
+                key: format!("C04/{}/{}/{}", if c.m128 { "128k" } else { "48k" }, kind_name, if *el > s { "too-slow" } else { "too-fast" }),
+                what: format!("{} at frame T-state {} (latch {:02x}): took {} T, the contention model gives {} T (uncontended {} T) for bus cycles [{}]",
+                    match &c.act { Action::Instr(code, _) => format!("instruction {}", hex(code)), Action::Mreq(a, k) => format!("memory cycle {:04x}:{}", a, k), Action::Port(p, _) => format!("port cycle {:04x}", p) },
+                    c.t, c.latch, el, s, plain, ops_text(ops)),
+                correspondence: "corr.C04.timing (Model.Machine waitMreq/ioCycle/contentionClocks vs controller.rs)".into(),
+                case: J::obj(vec![("text", J::s(c.text()))]),
+                implementation: format!("{}", el),
+                expected: format!("{}", s),
+            });
+        } else if *el != m {
+            rep.violation(Violation {
+                kind: Kind::ModelMismatch,
+                key: format!("C04/{}/{}/model", if c.m128 { "128k" } else { "48k" }, kind_name),
+                what: format!("case {}: took {} T, Lean model {} T", c.text(), el, m),
+                correspondence: "corr.C04.timing (Model.Machine waitMreq/ioCycle/contentionClocks vs controller.rs)".into(),
+                case: J::obj(vec![("text", J::s(c.text()))]),
+                implementation: format!("{}", el),
+                expected: format!("{}", m),
+            });
+        }
+    }
+    batch.clear();
+}
+
+/// the frame T-states worth looking at: around the contention window edges, every residue mod 8
+fn interesting_ts(m128: bool, thorough: bool, rng: &mut Rng) -> Vec<usize> {
+    let (t0, line) = if m128 { (14361usize, 228usize) } else { (14335, 224) };
+    let l = frame_len(m128);
+    let mut v = vec![];
+    for t in t0 - 12..t0 + 12 {
+        v.push(t);
+    }
+    let lines: Vec<usize> = if thorough { (0..192).collect() } else { vec![0, 1, 2, 63, 64, 100, 127, 128, 190, 191] };
+    for ln in lines {
+        let cols: Vec<usize> = if thorough || ln == 1 || ln == 191 { (0..line).collect() } else { (110..150).chain(line - 16..line).collect() };
+        for c in cols {
+            v.push(t0 + ln * line + c);
+        }
+    }
+    for t in t0 + 192 * line - 10..t0 + 192 * line + 140 {
+        v.push(t);
+    }
+    for t in l - 40..l {
+        v.push(t);
+    }
+    for t in 0..16 {
+        v.push(t);
+    }
+    for _ in 0..200 {
+        v.push(rng.below(l as u64) as usize);
+    }
+    v.sort();
+    v.dedup();
+    v
+}
+
+/// address classes: one per 16K window, edges included
+const ADDRS: [u16; 10] = [0x0000, 0x3FFF, 0x4000, 0x5ABC, 0x7FFF, 0x8000, 0xBFFF, 0xC000, 0xE123, 0xFFFF];
+
+fn instr_set(thorough: bool) -> Vec<Vec<u8>> {
+    let mut v: Vec<Vec<u8>> = vec![];
+    if thorough {
+        for op in 0..=255u8 {
+            v.push(vec![op, 0x34, 0x12]);
+            v.push(vec![0xCB, op]);
+            v.push(vec![0xED, op, 0x34, 0x12]);
+            v.push(vec![0xDD, op, 0x05, 0x12]);
+            v.push(vec![0xFD, op, 0xFB, 0x12]);
+            v.push(vec![0xDD, 0xCB, 0x03, op]);
+            v.push(vec![0xFD, 0xCB, 0xFD, op]);
+        }
+        return v;
+    }
+    // every distinct shape of bus-cycle pattern
+    let plain: [&[u8]; 46] = [
+        &[0x00], &[0x01, 0x34, 0x12], &[0x02], &[0x03], &[0x09], &[0x0A], &[0x10, 0x05], &[0x18, 0x05], &[0x20, 0x05],
+        &[0x22, 0x00, 0x50], &[0x2A, 0x00, 0x50], &[0x32, 0x00, 0x60], &[0x34], &[0x36, 0x77], &[0x3A, 0x00, 0x60],
+        &[0x46], &[0x70], &[0x76], &[0x86], &[0xC0], &[0xC1], &[0xC2, 0x00, 0x90], &[0xC3, 0x00, 0x90], &[0xC4, 0x00, 0x90],
+        &[0xC5], &[0xC9], &[0xCD, 0x00, 0x90], &[0xD3, 0xFE], &[0xD3, 0xFF], &[0xDB, 0xFE], &[0xDB, 0xFF], &[0xE3], &[0xE9], &[0xF9], &[0xFF],
+        &[0xCB, 0x06], &[0xCB, 0x46], &[0xCB, 0xC6], &[0xCB, 0x00],
+        &[0xDD, 0x09], &[0xDD, 0x34, 0x05], &[0xDD, 0x36, 0x05, 0x77], &[0xDD, 0x46, 0xFB], &[0xDD, 0xE3], &[0xFD, 0xE5], &[0xDD, 0x00],
+    ];
+    for p in plain {
+        v.push(p.to_vec());
+    }
+    let ed: [u8; 28] = [
+        0x40, 0x41, 0x42, 0x43, 0x44, 0x45, 0x47, 0x4A, 0x4B, 0x57, 0x67, 0x6F, 0x70, 0x71, 0x78, 0x79, 0xA0, 0xA1, 0xA2, 0xA3, 0xA8, 0xB0, 0xB1,
+        0xB2, 0xB3, 0xB8, 0xBB, 0x00,
+    ];
+    for e in ed {
+        v.push(vec![0xED, e, 0x00, 0x50]);
+    }
+    for op in [0x06u8, 0x46, 0xC6, 0x00] {
+        v.push(vec![0xDD, 0xCB, 0x03, op]);
+        v.push(vec![0xFD, 0xCB, 0xFD, op]);
+    }
+    v
+}
+
+fn placement(rng: &mut Rng) -> u16 {
+    // one of the four windows, away from the window edges (the code may be up to 4 bytes and IX+d +-128)
+    let base = [0x0200u16, 0x4200, 0x8200, 0xC200][rng.below(4) as usize];
+    base + (rng.below(0x3B00) as u16)
+}
+
+fn random_regs(rng: &mut Rng) -> Regs16 {
+    let mut r = Regs16 {
+        pc: placement(rng),
+        sp: placement(rng),
+        af: rng.u16(),
+        bc: placement(rng),
+        de: placement(rng),
+        hl: placement(rng),
+        ix: placement(rng),
+        iy: placement(rng),
+        i: [0x00u8, 0x40, 0x7F, 0x80, 0xC0, 0xFF][rng.below(6) as usize],
+    };
+    // timing variants: B / BC small so that repeat/last iterations both occur
+    match rng.below(4) {
+        0 => r.bc = (r.bc & 0x00FF) | 0x0100,
+        1 => r.bc = 0x0001,
+        2 => r.bc = 0x0002,
+        _ => {}
+    }
+    // code must lie in RAM
+    if r.pc < 0x4000 {
+        r.pc += 0x4000;
+    }
+    r
+}
+
+pub fn run(o: &Opts) -> Report {
     let mut rep = Report::new("C04");
-    rep.notes.push("not built yet".into());
+    rep.rule = "three layers, each compared with the Lean machine model (exact) and the contention spec (the property's delay \
+table and I/O patterns): single memory-side bus cycles (10 address classes x clocks 1/3/4) and single port cycles (read and \
+write; high byte in every window x bit 0) at every interesting frame T-state (window edges of lines 0,1,100,190,191, all \
+columns of lines 1 and 191, before/after the picture, frame end wrap, 200 random) on the 48K and on the 128K with every bank \
+0-7 paged at 0xC000; whole instructions (all 1792 encodings plus hand-picked operand variants) executed by the real \
+Z80 in the real Emulator with random placement of code, stack, HL/BC/DE/IX/IY, I in contended/uncontended memory at random \
+interesting T-states, the bus-cycle trace taken from the real Z80 on a recording bus. distinct/non-trivial = distinct \
+(machine, cycle kind or opcode, delay, T mod 8) among delayed cases".into();
+    let mut model = Model::spawn(&o.model, "C04");
+    let mut batch = vec![];
+
+    if let Some(text) = &o.replay {
+        rep.sample(J::s(text.clone()));
+        if let Some(c) = Case::parse(text) {
+            let mut rig = Rig::new(c.m128);
+            check_case(&mut model, &mut rig, &c, &mut rep, &mut batch);
+            flush(&mut model, &mut rep, &mut batch);
+        }
+        return rep;
+    }
+
+    let mut rng = Rng::new(o.seed);
+    for m128 in [false, true] {
+        let ts = interesting_ts(m128, o.thorough(), &mut rng);
+        let latches: Vec<u8> = if m128 { (0..8).collect() } else { vec![0] };
+        for latch in latches {
+            let mut rig = Rig::new(m128);
+            // (1) memory cycles, (2) port cycles — T ascending in interleaved passes so the clock moves forward
+            for pass in 0..4 {
+                for (n, t) in ts.iter().enumerate() {
+                    if n % 4 != pass {
+                        continue;
+                    }
+                    let a = ADDRS[(n / 4 + pass + latch as usize) % ADDRS.len()];
+                    let clk = [1usize, 3, 4][(n + pass) % 3];
+                    check_case(&mut model, &mut rig, &Case { m128, latch, t: *t, act: Action::Mreq(a, clk) }, &mut rep, &mut batch);
+                    rep.count("cases", "memory cycle");
+                }
+                flush(&mut model, &mut rep, &mut batch);
+            }
+            for pass in 0..8 {
+                for (n, t) in ts.iter().enumerate() {
+                    if n % 8 != pass {
+                        continue;
+                    }
+                    let hi = ADDRS[(n / 8 + pass) % ADDRS.len()] & 0xFF00;
+                    // avoid the paging latch on writes: ports with A1 set
+                    let port = hi | [0x00FE, 0x00FF, 0x00F6, 0x0003][(n + pass) % 4];
+                    let w = (n / 3) % 2 == 0;
+                    check_case(&mut model, &mut rig, &Case { m128, latch, t: *t, act: Action::Port(port, w) }, &mut rep, &mut batch);
+                    rep.count("cases", "port cycle");
+                }
+                flush(&mut model, &mut rep, &mut batch);
+            }
+        }
+        // (3) instructions
+        let mut instrs = instr_set(true);
+        instrs.extend(instr_set(false));
+        let per = o.n(10, 200) as usize;
+        let mut rig = Rig::new(m128);
+        let mut cases = vec![];
+        for code in &instrs {
+            for k in 0..per {
+                let mut r = rng.fork();
+                let regs = random_regs(&mut r);
+                let t = if k % 2 == 0 { *r.pick(&ts) } else { r.below(frame_len(m128) as u64) as usize };
+                let latch = if m128 { r.below(8) as u8 | (r.below(2) as u8) << 4 } else { 0 };
+                cases.push(Case { m128, latch, t, act: Action::Instr(code.clone(), regs) });
+            }
+        }
+        // sort by latch then T so that neither the latch nor the clock thrash
+        cases.sort_by_key(|c| (c.latch, c.t));
+        for (n, c) in cases.iter().enumerate() {
+            if n < 2 {
+                rep.sample(J::s(c.text()));
+            }
+            check_case(&mut model, &mut rig, c, &mut rep, &mut batch);
+            rep.count("cases", "instruction");
+            if batch.len() >= 400 {
+                flush(&mut model, &mut rep, &mut batch);
+            }
+        }
+        flush(&mut model, &mut rep, &mut batch);
+    }
     rep
 }
